@@ -557,7 +557,7 @@ fn gen_parser(rng: &mut Rng, cfg: &GenCfg, sw: &Swarm, n: usize) -> ValParser {
             let mut pvs = Vec::new();
             for i in 0..k {
                 let mut pv = PvSpec {
-                    name: format!("{}{n:03}{}", rng.pick(&["pv", "fast", "slow", "Auto", "pv-x", "pv_y"]), (b'a' + i as u8) as char),
+                    name: format!("{}{n:03}{}", if cfg.hostile_names && rng.chance(1, 5) { *rng.pick(&["\u{b5}m", "\u{7c73}", "k\u{3a9}"]) } else { *rng.pick(&["pv", "fast", "slow", "Auto", "pv-x", "pv_y"]) }, (b'a' + i as u8) as char),
                     ..Default::default()
                 };
                 if rng.chance(1, 4) {
